@@ -146,7 +146,7 @@ PROPS = {
         'trusted_base': ['ThreadSanitizer (gcc -fsanitize=thread) on the library built from /repo with the hook enabled; harness/tsan_stress.c',
                          'schedule-controlling pthread shim (engine pl): ties the LTS, on which the race-freedom theorems are stated, to threadpool.c step by step; the per-label access lists (seg_access) are hand-written from threadpool.c'],
         'assumptions': ['T14_race_free: caller program respects the API contract (prog_wf), a signal wakes only a blocked thread (sched_wf), a thread starts only after its pthread_create has been performed (sched_causal) - T14_race_free_hb / _all_sched need no such hypothesis and are the statements that apply to the schedules engine pl explores (a created thread may run before the create step of its creator: the new thread running before pthread_create returns); engine pl checks prog_wf and sched_wf on every trace; program shorter than 2^63 commands',
-                        'a theorem about the Gallina LTS says nothing about which memory accesses the C code performs outside threadpool.c: for readers shared between threads the write sets of reader.c / block.c and the static storage of the library are regenerated from the source by tools/gen_ties.py (STRUCT_WRITES, STATIC_STORAGE) and T14r_* prove the written-only-at-init rule over them - a syntactic scan (assignments, increments, address-taken fields through named struct pointers; writes through aliases are invisible to it); writer / sorter fields owned by the handler thread are searched with ThreadSanitizer',
+                        'a theorem about the Gallina LTS says nothing about which memory accesses the C code performs outside threadpool.c: for readers shared between threads the write sets of reader.c / block.c and the static storage of the library are regenerated from the source by tools/gen_ties.py (STRUCT_WRITES, STATIC_STORAGE) and T14r_* prove the written-only-at-init rule over them - a syntactic scan (assignments, increments, address-taken fields through named struct pointers; writes through aliases are invisible to it); for the writer / sorter fields owned by the handler thread the access list FIELD_ACCESSES (function, field, kind, statement index, brace depth, join statements) is regenerated likewise and T14w proves the ownership rule over it; ThreadSanitizer searches underneath both',
                         'absence of a TSan report on the explored executions is not a proof of race freedom; a report is a concrete violation'],
         'explanation': 'Race freedom of the thread-pool protocol proved on the LTS of threadpool.c for all schedules (in-flight access sets per program point, lockset theorem, ownership invariants for the unlocked accesses). Data-race freedom of the C code is searched with ThreadSanitizer on real concurrent programs: pooled writers and sorters sharing one pool from several caller threads, many threads on one reader, first-use of the CRC dispatch from several workers, mixed.',
     },
